@@ -210,6 +210,20 @@ pub fn c07_instances(tier: Tier) -> Vec<Instance> {
                 i.allow_eof = false;
                 out.push(i);
             }
+            // (b2) the version gate and the keep-alive reply do not disturb each other
+            let valpha: Vec<(&str, Vec<u8>)> = vec![("ka", f_keepalive(c)), ("ver9", f_ver(c, 9)), ("ver8", f_ver(c, 8)), ("small", f_small(c))];
+            for seq in sequences(&valpha, 3) {
+                if !seq.iter().any(|x| x.0 == "ka") || !seq.iter().any(|x| x.0.starts_with("ver")) { continue; }
+                let label: Vec<&str> = seq.iter().map(|x| x.0).collect();
+                let frames: Vec<Vec<u8>> = seq.iter().map(|x| x.1.clone()).collect();
+                let mut i = Instance::new(&format!("gate#{cname}#{}#{}", label.join("+"), imp_name(imp)), imp, c, frames);
+                i.verify_version = true;
+                i.chunks = Chunks::Boundary;
+                i.fail_budget = 1;
+                i.fail_kinds = vec![0];
+                i.allow_eof = false;
+                out.push(i);
+            }
             // (c) sequences with every partition; the reply itself is split / delayed on the write side
             let alpha: Vec<(&str, Vec<u8>)> = vec![
                 ("ka", f_keepalive(c)), ("none1", f_tiny(c, 1, 0)), ("ping0", f_tiny(c, 0, 3)), ("small", f_small(c)), ("mso", f_mso(c)),
